@@ -101,7 +101,7 @@ theorem precisionUpdate_error (preds labs : List Nat) (avg : Avg) (C : Nat)
   all_goals simp only [precisionUpdate, h1, bind, Except.bind]
 
 example : precisionUpdate [0, 2, 1, 2] [0, 1, 1, 2] .macro 3 = .ok ⟨[1, 1, 1], [0, 0, 1], [1, 2, 1]⟩ := by
-  rw [precisionUpdate_eq _ _ _ _ rfl (by decide) (by decide) (by decide)]
+  rw [precisionUpdate_eq _ _ _ _ (by decide) (by decide) (by decide) (by decide)]
   simp [List.range, List.range.loop, tp, fp, support]
 
 /-- per-class recall / F1 state: true positives, label counts, prediction counts. -/
@@ -136,7 +136,569 @@ theorem recallUpdate_error (preds labs : List Nat) (avg : Avg) (C : Nat)
     · simp only [recallUpdate, scatterOnes_error C labs hl, bind, Except.bind]
 
 example : recallUpdate [0, 2, 1, 2] [0, 1, 1, 2] .none 3 = .ok ⟨[1, 1, 1], [1, 2, 1], [1, 1, 2]⟩ := by
-  rw [recallUpdate_eq _ _ _ _ rfl (by decide) (by decide) (by decide)]
+  rw [recallUpdate_eq _ _ _ _ (by decide) (by decide) (by decide) (by decide)]
   simp [List.range, List.range.loop, tp, predicted, support]
+
+/-! ## 5. `_precision_compute` / `_recall_compute` / `_f1_score_compute` -/
+
+/-- `average=None`: the per-class textbook precision. -/
+theorem precisionCompute_none_eq (ps : Pairs) (C : Nat) :
+    precisionCompute
+      ⟨(List.range C).map fun c => (tp ps c : Q), (List.range C).map fun c => (fp ps c : Q),
+       (List.range C).map fun c => (support ps c : Q)⟩ .none
+      = (List.range C).map fun c => XQ.val (precision ps c) := by
+  simp only [precisionCompute, List.zip_map', List.map_map]
+  apply List.map_congr_left; intro c _
+  simp only [Function.comp, precision_eq]
+
+/-- `average="micro"`: `#correct / n` (`0` when there is no sample). -/
+theorem precisionCompute_micro_eq (ps : Pairs) :
+    precisionCompute ⟨[(correct ps : Q)], [((ps.length - correct ps : Nat) : Q)], [0]⟩ .micro
+      = [.val (ratio0 (correct ps) ps.length)] := by
+  have h := correct_add_wrong ps
+  simp only [precisionCompute, List.zip_cons_cons, List.zip_nil_right, List.map_cons, List.map_nil,
+    ← Rat.natCast_add, divNan0_natCast]
+  congr 4; omega
+
+/-- `average="macro"`: plain mean of the per-class precision over the classes
+    that occur in the labels or in the predictions. -/
+theorem precisionCompute_macro_eq (ps : Pairs) (C : Nat) :
+    precisionCompute
+      ⟨(List.range C).map fun c => (tp ps c : Q), (List.range C).map fun c => (fp ps c : Q),
+       (List.range C).map fun c => (support ps c : Q)⟩ .macro
+      = [meanX ((present ps C).map (precision ps))] := by
+  simp only [precisionCompute, prf_rows, List.map_map, present_eq_filter_prec]
+  congr 2
+  apply List.map_congr_left; intro c _
+  simp only [Function.comp, precision_eq]
+
+/-- `average="weighted"`: support-weighted mean of the per-class precision over
+    the present classes (`0` for an empty batch). -/
+theorem precisionCompute_weighted_eq (ps : Pairs) (C : Nat) (hl : ∀ p ∈ ps, p.2 < C) :
+    precisionCompute
+      ⟨(List.range C).map fun c => (tp ps c : Q), (List.range C).map fun c => (fp ps c : Q),
+       (List.range C).map fun c => (support ps c : Q)⟩ .weighted
+      = [.val ((present ps C).map fun c =>
+          precision ps c * ((support ps c : Q) / (ps.length : Q))).sum] := by
+  simp only [precisionCompute, prf_rows, List.map_map, present_eq_filter_prec, CountL.qsum_eq_sum,
+    sum_support_range ps C hl]
+  by_cases hn : (ps.length : Q) = 0
+  · have : ps = [] := (natCast_length_eq_zero ps).mp hn
+    subst this
+    simp [present_nil]
+  · rw [if_neg hn]
+    congr 3
+    apply List.map_congr_left; intro c _
+    simp only [Function.comp, precision_eq]
+
+example : precisionCompute ⟨[1, 1, 1], [0, 0, 1], [1, 2, 1]⟩ .macro = [.val (5/6)] := by
+  simp [precisionCompute, meanX, xdiv, qsum, divNan0]; grind
+example : ∀ p ∈ ([(0, 0), (2, 1), (1, 1), (2, 2)] : Pairs), p.2 < 3 := by decide
+example : precisionCompute ⟨[1, 1, 1], [0, 0, 1], [1, 2, 1]⟩ .weighted = [.val (7/8)] := by
+  simp [precisionCompute, qsum, divNan0]; grind
+/-- the spec side of the same input evaluates to the same number. -/
+example : ((present [(0, 0), (2, 1), (1, 1), (2, 2)] 3).map fun c =>
+      precision [(0, 0), (2, 1), (1, 1), (2, 2)] c *
+        ((support [(0, 0), (2, 1), (1, 1), (2, 2)] c : Q) / (4 : Q))).sum = 7/8 := by
+  simp [present, precision, ratio0, support, predicted, tp, fp, List.range, List.range.loop]
+  grind
+
+/-- `average=None`: the per-class textbook recall. -/
+theorem recallCompute_none_eq (ps : Pairs) (C : Nat) :
+    recallCompute
+      ⟨(List.range C).map fun c => (tp ps c : Q), (List.range C).map fun c => (support ps c : Q),
+       (List.range C).map fun c => (predicted ps c : Q)⟩ .none
+      = (List.range C).map fun c => XQ.val (recall ps c) := by
+  simp only [recallCompute, List.zip_map', List.map_map]
+  apply List.map_congr_left; intro c _
+  simp only [Function.comp, recall_eq]
+
+/-- `average="micro"`: `#correct / n` (`0` when there is no sample). -/
+theorem recallCompute_micro_eq (ps : Pairs) :
+    recallCompute ⟨[(correct ps : Q)], [(ps.length : Q)], [(ps.length : Q)]⟩ .micro
+      = [.val (ratio0 (correct ps) ps.length)] := by
+  simp only [recallCompute, List.zip_cons_cons, List.zip_nil_right, List.map_cons, List.map_nil,
+    divNan0_natCast]
+
+theorem recallCompute_macro_eq (ps : Pairs) (C : Nat) :
+    recallCompute
+      ⟨(List.range C).map fun c => (tp ps c : Q), (List.range C).map fun c => (support ps c : Q),
+       (List.range C).map fun c => (predicted ps c : Q)⟩ .macro
+      = [meanX ((present ps C).map (recall ps))] := by
+  simp only [recallCompute, prf_rows, List.map_map, present_eq_filter]
+  congr 2
+  apply List.map_congr_left; intro c _
+  simp only [Function.comp, recall_eq]
+
+theorem recallCompute_weighted_eq (ps : Pairs) (C : Nat) (hl : ∀ p ∈ ps, p.2 < C) :
+    recallCompute
+      ⟨(List.range C).map fun c => (tp ps c : Q), (List.range C).map fun c => (support ps c : Q),
+       (List.range C).map fun c => (predicted ps c : Q)⟩ .weighted
+      = [.val ((present ps C).map fun c =>
+          recall ps c * ((support ps c : Q) / (ps.length : Q))).sum] := by
+  have hs := sum_support_present ps C hl
+  simp only [recallCompute, prf_rows, List.map_map, present_eq_filter, CountL.qsum_eq_sum,
+    Function.comp_def, hs]
+  by_cases hn : (ps.length : Q) = 0
+  · have : ps = [] := (natCast_length_eq_zero ps).mp hn
+    subst this
+    simp [present_nil]
+  · rw [if_neg hn]
+    congr 3
+    apply List.map_congr_left; intro c _
+    simp only [recall_eq]
+
+/-- harmonic mean with `nan_to_num` = the textbook `2·tp / (labels + predictions)`. -/
+theorem f1One_eq (t l p : Nat) (hl : t ≤ l) (hp : t ≤ p) :
+    f1One (t : Q) (l : Q) (p : Q) = ratio0 (2 * t) (l + p) := f1One_natCast t l p hl hp
+
+theorem f1Compute_none_eq (ps : Pairs) (C : Nat) :
+    f1Compute
+      ⟨(List.range C).map fun c => (tp ps c : Q), (List.range C).map fun c => (support ps c : Q),
+       (List.range C).map fun c => (predicted ps c : Q)⟩ .none
+      = (List.range C).map fun c => XQ.val (f1 ps c) := by
+  simp only [f1Compute, List.zip_map', List.map_map]
+  apply List.map_congr_left; intro c _
+  simp only [Function.comp, f1_eq]
+
+/-- micro F1 = `2·#correct / (n + n)`, i.e. the accuracy. -/
+theorem f1Compute_micro_eq (ps : Pairs) :
+    f1Compute ⟨[(correct ps : Q)], [(ps.length : Q)], [(ps.length : Q)]⟩ .micro
+      = [.val (ratio0 (2 * correct ps) (ps.length + ps.length))] := by
+  have h := correct_add_wrong ps
+  simp only [f1Compute, List.zip_cons_cons, List.zip_nil_right, List.map_cons, List.map_nil,
+    f1One_natCast _ _ _ (show correct ps ≤ ps.length by omega) (show correct ps ≤ ps.length by omega)]
+
+theorem f1Compute_macro_eq (ps : Pairs) (C : Nat) :
+    f1Compute
+      ⟨(List.range C).map fun c => (tp ps c : Q), (List.range C).map fun c => (support ps c : Q),
+       (List.range C).map fun c => (predicted ps c : Q)⟩ .macro
+      = [meanX ((present ps C).map (f1 ps))] := by
+  simp only [f1Compute, prf_rows, List.map_map, present_eq_filter]
+  congr 2
+  apply List.map_congr_left; intro c _
+  simp only [Function.comp, f1_eq]
+
+theorem f1Compute_weighted_eq (ps : Pairs) (C : Nat) (hl : ∀ p ∈ ps, p.2 < C) :
+    f1Compute
+      ⟨(List.range C).map fun c => (tp ps c : Q), (List.range C).map fun c => (support ps c : Q),
+       (List.range C).map fun c => (predicted ps c : Q)⟩ .weighted
+      = [.val ((present ps C).map fun c =>
+          f1 ps c * ((support ps c : Q) / (ps.length : Q))).sum] := by
+  have hs := sum_support_present ps C hl
+  simp only [f1Compute, prf_rows, List.map_map, present_eq_filter, CountL.qsum_eq_sum,
+    Function.comp_def, hs]
+  by_cases hn : (ps.length : Q) = 0
+  · have : ps = [] := (natCast_length_eq_zero ps).mp hn
+    subst this
+    simp [present_nil]
+  · rw [if_neg hn]
+    congr 3
+    apply List.map_congr_left; intro c _
+    simp only [f1_eq]
+
+example : recallCompute ⟨[1, 1, 1], [1, 2, 1], [1, 1, 2]⟩ .macro = [.val (5/6)] := by
+  simp [recallCompute, meanX, xdiv, qsum, divNan0]; grind
+example : f1Compute ⟨[1, 1, 1], [1, 2, 1], [1, 1, 2]⟩ .none = [.val 1, .val (2/3), .val (2/3)] := by
+  simp [f1Compute, f1One]; grind
+example : f1One 1 2 1 = ratio0 2 3 := f1One_eq 1 2 1 (by decide) (by decide)
+
+/-! ## 6. confusion matrix -/
+
+/-- the accumulated COO pairs form the `C × C` matrix of textbook confusion
+    counts (row = true class, column = predicted class). -/
+theorem confusionUpdate_eq (preds labs : List Nat) (C : Nat)
+    (hp : preds.all (· < C) = true) (hl : labs.all (· < C) = true) :
+    confusionUpdate preds labs C = .ok ((List.range C).map fun t => (List.range C).map fun p =>
+      (confusion (preds.zip labs) t p : Q)) :=
+  confusionUpdate_ok preds labs C hp hl
+
+/-- entry-wise reading of `confusionUpdate_eq`. -/
+theorem confusionUpdate_entry (preds labs : List Nat) (C : Nat)
+    (hp : preds.all (· < C) = true) (hl : labs.all (· < C) = true) :
+    ∃ m, confusionUpdate preds labs C = .ok m ∧ m.length = C ∧
+      ∀ t p, t < C → p < C →
+        (m.getD t []).length = C ∧ (m.getD t []).getD p 0 = (confusion (preds.zip labs) t p : Q) := by
+  refine ⟨_, confusionUpdate_ok preds labs C hp hl, by simp, ?_⟩
+  intro t p ht hp'
+  simp [List.getD_eq_getElem?_getD, ht, hp']
+
+/-- any out-of-range prediction or label raises. -/
+theorem confusionUpdate_error (preds labs : List Nat) (C : Nat)
+    (h : ¬ (preds.all (· < C) = true ∧ labs.all (· < C) = true)) :
+    confusionUpdate preds labs C = .error .runtime :=
+  confusionUpdate_err preds labs C h
+
+example : confusionUpdate [0, 1, 1] [0, 0, 1] 2 = .ok [[1, 1], [0, 1]] := by
+  rw [confusionUpdate_eq _ _ _ (by decide) (by decide)]
+  simp [List.range, List.range.loop, confusion]
+example : confusionUpdate [0, 2] [0, 0] 2 = .error .runtime := confusionUpdate_error _ _ _ (by decide)
+
+/-! ## 3. binary accuracy -/
+
+/-- `_binary_accuracy_update` counts the samples whose thresholded score equals
+    the (integer) target; the total is the number of targets. -/
+theorem binaryAccuracyUpdate_eq (thr : Q) (xs : List Q) (ys : List Nat) :
+    (binaryAccuracyUpdate thr xs (ys.map fun (y : Nat) => (y : Q))).1
+        = (correct ((xs.map (binPred thr)).zip ys) : Q) ∧
+    (binaryAccuracyUpdate thr xs (ys.map fun (y : Nat) => (y : Q))).2 = (ys.length : Q) := by
+  refine ⟨binaryAccuracy_fst thr xs ys, ?_⟩
+  simp [binaryAccuracyUpdate]
+
+example : binaryAccuracyUpdate (1/2) [1/4, 1/2, 3/4] ([0, 1, 0].map fun (y : Nat) => (y : Q)) = (2, 3) := by
+  have h := binaryAccuracyUpdate_eq (1/2) [1/4, 1/2, 3/4] [0, 1, 0]
+  have e : correct (([1/4, 1/2, 3/4].map (binPred (1/2))).zip [0, 1, 0]) = 2 := by
+    have h1 : binPred (1/2) (1/4) = 0 := by unfold binPred; rw [if_neg]; grind
+    have h2 : binPred (1/2) (1/2) = 1 := by unfold binPred; rw [if_pos]; grind
+    have h3 : binPred (1/2) (3/4) = 1 := by unfold binPred; rw [if_pos]; grind
+    simp [correct, h1, h2, h3]
+  rw [e] at h
+  exact Prod.ext h.1 h.2
+
+/-! ## 7. multiclass accuracy masks -/
+
+/-- the top-k mask marks exactly the samples that are top-k correct. -/
+theorem mcMaskTopk_eq (rows : List (List Q)) (labs : List Nat) (k : Nat) :
+    mcMaskTopk rows labs k = (rows.zip labs).map fun p => b2q (topkCorrect p.1 p.2 k) := by
+  unfold mcMaskTopk
+  apply List.map_congr_left; intro p _
+  simp only [rankOf, topkCorrect, List.countP_eq_length_filter]
+
+/-- micro totals: `(#correct, n)`. -/
+theorem mcAccFromMask_micro_eq (preds labs : List Nat) (C : Nat) :
+    mcAccFromMask (mcMaskLabel preds labs) labs .micro C
+      = .ok ([(correct (preds.zip labs) : Q)], [(labs.length : Q)]) := by
+  simp only [mcAccFromMask, mcMaskLabel, qsum_b2q]; rfl
+
+theorem mcAccFromMask_topk_micro_eq (rows : List (List Q)) (labs : List Nat) (k C : Nat) :
+    mcAccFromMask (mcMaskTopk rows labs k) labs .micro C
+      = .ok ([(((rows.zip labs).countP fun p => topkCorrect p.1 p.2 k : Nat) : Q)],
+             [(labs.length : Q)]) := by
+  rw [mcMaskTopk_eq]
+  simp only [mcAccFromMask, qsum_b2q]
+
+/-- per-class totals: `(tp c, support c)` for every class. -/
+theorem mcAccFromMask_class_eq (preds labs : List Nat) (avg : Avg) (C : Nat)
+    (hlen : preds.length = labs.length) (hl : labs.all (· < C) = true) (havg : avg ≠ .micro) :
+    mcAccFromMask (mcMaskLabel preds labs) labs avg C
+      = .ok ((List.range C).map fun c => (tp (preds.zip labs) c : Q),
+             (List.range C).map fun c => (support (preds.zip labs) c : Q)) := by
+  unfold mcMaskLabel
+  rw [mcAccFromMask_mask preds labs (fun p => p.1 == p.2) avg C hl havg]
+  simp only [tp_eq_mask_count, support_zip preds labs hlen]
+
+/-- per-class top-k totals: number of top-k-correct samples of each class, and
+    the class supports. -/
+theorem mcAccFromMask_topk_class_eq (rows : List (List Q)) (labs : List Nat) (k : Nat) (avg : Avg)
+    (C : Nat) (hl : labs.all (· < C) = true) (havg : avg ≠ .micro) :
+    mcAccFromMask (mcMaskTopk rows labs k) labs avg C
+      = .ok ((List.range C).map fun c =>
+               (((rows.zip labs).countP fun p => p.2 == c && topkCorrect p.1 p.2 k : Nat) : Q),
+             (List.range C).map fun c => (labs.count c : Q)) := by
+  rw [mcMaskTopk_eq, mcAccFromMask_mask rows labs (fun p => topkCorrect p.1 p.2 k) avg C hl havg]
+
+/-- an out-of-range label raises in the per-class branch. -/
+theorem mcAccFromMask_error (mask : List Q) (labs : List Nat) (avg : Avg) (C : Nat)
+    (hl : ¬ labs.all (· < C) = true) (havg : avg ≠ .micro) :
+    mcAccFromMask mask labs avg C = .error .runtime := by
+  have h1 := CountL.scatterAdd_error C labs mask hl
+  cases avg <;> first | exact absurd rfl havg | skip
+  all_goals simp only [mcAccFromMask, h1, bind, Except.bind]
+
+example : mcAccFromMask (mcMaskLabel [0, 2, 1, 2] [0, 1, 1, 2]) [0, 1, 1, 2] .macro 3
+    = .ok ([1, 1, 1], [1, 2, 1]) := by
+  rw [mcAccFromMask_class_eq _ _ _ _ (by decide) (by decide) (by decide)]
+  simp [List.range, List.range.loop, tp, support]
+example : mcMaskTopk [[1, 3, 2], [5, 4, 6]] [2, 1] 2 = [1, 0] := by
+  rw [mcMaskTopk_eq]
+  have h1 : ¬ (2 : Q) < 1 := by decide
+  have h2 : (2 : Q) < 3 := by decide
+  have h3 : (4 : Q) < 5 := by decide
+  have h4 : (4 : Q) < 6 := by decide
+  simp [topkCorrect, b2q, List.filter, h1, h2, h3, h4]
+
+/-! ## 8. `_accuracy_compute` -/
+
+/-- macro accuracy: mean of `tp / support` over the classes with non-zero support. -/
+theorem accuracyCompute_macro_eq (ps : Pairs) (C : Nat) :
+    accuracyCompute ((List.range C).map fun c => (tp ps c : Q))
+        ((List.range C).map fun c => (support ps c : Q)) .macro
+      = [meanX (((List.range C).filter fun c => support ps c != 0).map fun c =>
+          (tp ps c : Q) / (support ps c : Q))] := by
+  simp only [accuracyCompute, List.zip_map', List.filter_map, List.map_map]
+  congr 3
+  apply List.filter_congr; intro c _
+  simp only [Function.comp, natCast_bne_zero]
+
+/-- … and on those classes `tp / support` is the per-class accuracy. -/
+theorem classAccuracy_of_support (ps : Pairs) (c : Nat) (h : support ps c ≠ 0) :
+    classAccuracy ps c = .val ((tp ps c : Q) / (support ps c : Q)) := by
+  have : (support ps c : Q) ≠ 0 := fun e => h (Rat.natCast_eq_zero_iff.mp e)
+  simp [classAccuracy, xdiv, this]
+
+/-- `average=None`: per-class accuracy (NaN for classes without support). -/
+theorem accuracyCompute_none_eq (ps : Pairs) (C : Nat) :
+    accuracyCompute ((List.range C).map fun c => (tp ps c : Q))
+        ((List.range C).map fun c => (support ps c : Q)) .none
+      = (List.range C).map (classAccuracy ps) := by
+  simp only [accuracyCompute, List.zip_map', List.map_map]
+  rfl
+
+/-- micro accuracy: `#correct / n` (NaN for an empty batch). -/
+theorem accuracyCompute_micro_eq (ps : Pairs) :
+    accuracyCompute [(correct ps : Q)] [(ps.length : Q)] .micro = [microAccuracy ps] := rfl
+
+example : accuracyCompute [1, 1, 0] [1, 2, 0] .macro = [.val (3/4)] := by
+  simp [accuracyCompute, meanX, xdiv, qsum]; grind
+
+/-! ## 2. `torch.argmax` = first maximal index -/
+
+theorem argmaxFirst_spec (row : List Q) (h : row ≠ []) :
+    argmaxFirst row < row.length ∧
+    (∀ j, j < row.length → row.getD j 0 ≤ row.getD (argmaxFirst row) 0) ∧
+    (∀ j, j < argmaxFirst row → row.getD j 0 < row.getD (argmaxFirst row) 0) :=
+  argmaxFirst_ok row h
+
+/-- the empty row maps to index 0 (torch would raise; the callers never pass one). -/
+theorem argmaxFirst_nil : argmaxFirst [] = 0 := rfl
+
+example : argmaxFirst [1, 3, 2, 3] = 1 := by
+  have h12 : (1 : Q) < 3 := by grind
+  have h32 : ¬ (3 : Q) < 2 := by grind
+  have h33 : ¬ (3 : Q) < 3 := by grind
+  simp [argmaxFirst, argmaxFirst.go, h12, h32, h33]
+
+/-! ## 9. totality on valid inputs -/
+
+theorem precisionUpdate_total (preds labs : List Nat) (avg : Avg) (C : Nat)
+    (hlen : preds.length = labs.length)
+    (hp : preds.all (· < C) = true) (hl : labs.all (· < C) = true) :
+    ∃ s, precisionUpdate preds labs avg C = .ok s := by
+  by_cases h : avg = .micro
+  · subst h; exact ⟨_, precisionUpdate_micro_eq preds labs C⟩
+  · exact ⟨_, precisionUpdate_eq preds labs avg C hlen hp hl h⟩
+
+theorem recallUpdate_total (preds labs : List Nat) (avg : Avg) (C : Nat)
+    (hlen : preds.length = labs.length)
+    (hp : preds.all (· < C) = true) (hl : labs.all (· < C) = true) :
+    ∃ s, recallUpdate preds labs avg C = .ok s := by
+  by_cases h : avg = .micro
+  · subst h; exact ⟨_, recallUpdate_micro_eq preds labs C⟩
+  · exact ⟨_, recallUpdate_eq preds labs avg C hlen hp hl h⟩
+
+theorem confusionUpdate_total (preds labs : List Nat) (C : Nat)
+    (hp : preds.all (· < C) = true) (hl : labs.all (· < C) = true) :
+    ∃ m, confusionUpdate preds labs C = .ok m :=
+  ⟨_, confusionUpdate_eq preds labs C hp hl⟩
+
+theorem mcAccFromMask_total (mask : List Q) (labs : List Nat) (avg : Avg) (C : Nat)
+    (hl : labs.all (· < C) = true) :
+    ∃ r, mcAccFromMask mask labs avg C = .ok r := by
+  have h1 := scatterAdd_ok C labs mask hl
+  have h2 := scatterOnes_ok C labs hl
+  cases avg
+  · exact ⟨_, rfl⟩
+  all_goals
+    simp only [mcAccFromMask, h1, h2, bind, Except.bind]
+    exact ⟨_, rfl⟩
+
+theorem scatterAdd_total (n : Nat) (idx : List Nat) (vals : List Q) (h : idx.all (· < n) = true) :
+    ∃ v, scatterAdd n idx vals = .ok v := ⟨_, scatterAdd_ok n idx vals h⟩
+
+example : ([0, 2, 1, 2] : List Nat).length = ([0, 1, 1, 2] : List Nat).length ∧
+    ([0, 2, 1, 2] : List Nat).all (· < 3) = true ∧ ([0, 1, 1, 2] : List Nat).all (· < 3) = true := by
+  decide
+
+/-! ## 10. multilabel criteria as set relations on 0/1 rows
+
+  A row is read as the set of positions holding a `1`; `p ∈ inp.zip tgt` ranges
+  over the aligned (prediction, target) positions. -/
+
+/-- exact match: the rows are equal. -/
+theorem mlRowCorrect_exact (inp tgt : List Q) (h : inp.length = tgt.length) :
+    mlRowCorrect .exact inp tgt = if inp = tgt then 1 else 0 := ml_exact inp tgt h
+
+/-- contain: target ⊆ prediction. -/
+theorem mlRowCorrect_contain (inp tgt : List Q)
+    (h01 : ∀ p ∈ inp.zip tgt, (p.1 = 0 ∨ p.1 = 1) ∧ (p.2 = 0 ∨ p.2 = 1)) :
+    mlRowCorrect .contain inp tgt = if ∀ p ∈ inp.zip tgt, p.2 = 1 → p.1 = 1 then 1 else 0 :=
+  ml_contain inp tgt h01
+
+/-- belong: prediction ⊆ target. -/
+theorem mlRowCorrect_belong (inp tgt : List Q)
+    (h01 : ∀ p ∈ inp.zip tgt, (p.1 = 0 ∨ p.1 = 1) ∧ (p.2 = 0 ∨ p.2 = 1)) :
+    mlRowCorrect .belong inp tgt = if ∀ p ∈ inp.zip tgt, p.1 = 1 → p.2 = 1 then 1 else 0 :=
+  ml_belong inp tgt h01
+
+/-- overlap: prediction and target share a `1`, or both are all-zero. -/
+theorem mlRowCorrect_overlap (inp tgt : List Q) :
+    mlRowCorrect .overlap inp tgt
+      = if (∃ p ∈ inp.zip tgt, p.1 = 1 ∧ p.2 = 1) ∨ (∀ p ∈ inp.zip tgt, p.1 = 0 ∧ p.2 = 0)
+        then 1 else 0 := ml_overlap inp tgt
+
+/-- hamming: number of agreeing positions. -/
+theorem mlRowCorrect_hamming (inp tgt : List Q) :
+    mlRowCorrect .hamming inp tgt = ((inp.zip tgt).countP fun p => p.1 == p.2 : Nat) := rfl
+
+/-- all non-hamming criteria: `num_correct` is the number of rows satisfying the
+    criterion, `num_total` the number of rows. -/
+theorem multilabelUpdate_eq (crit : Crit) (inp tgt : List (List Q)) (h : crit ≠ .hamming) :
+    (multilabelUpdate crit inp tgt).1
+        = ((inp.zip tgt).countP fun p => mlRowCorrect crit p.1 p.2 == 1 : Nat) ∧
+    (multilabelUpdate crit inp tgt).2 = (tgt.length : Q) := by
+  constructor
+  · simp only [multilabelUpdate, CountL.qsum_eq_sum]
+    exact sum_zero_one _ _ fun p _ => ml_zero_one crit p.1 p.2 h
+  · cases crit <;> first | exact absurd rfl h | rfl
+
+/-- hamming: `num_correct` is the number of agreeing cells, `num_total` the number of cells. -/
+theorem multilabelUpdate_hamming_eq (inp tgt : List (List Q)) :
+    (multilabelUpdate .hamming inp tgt).1
+        = ((inp.zip tgt).map fun p => (((p.1.zip p.2).countP fun q => q.1 == q.2 : Nat) : Q)).sum ∧
+    (multilabelUpdate .hamming inp tgt).2 = (tgt.map fun r => (r.length : Q)).sum := by
+  simp only [multilabelUpdate, CountL.qsum_eq_sum]
+  exact ⟨rfl, trivial⟩
+
+/-- thresholded scores are 0/1 rows of textbook binary predictions. -/
+theorem multilabelAccuracyUpdate_eq (thr : Q) (crit : Crit) (inp tgt : List (List Q)) :
+    multilabelAccuracyUpdate thr crit inp tgt
+      = multilabelUpdate crit (inp.map fun r => r.map fun x => ((binPred thr x : Nat) : Q)) tgt := by
+  simp only [multilabelAccuracyUpdate, thresh_eq_binPred]
+
+example : mlRowCorrect .contain [1, 1, 0] [1, 0, 0] = 1 := by
+  rw [mlRowCorrect_contain _ _ (by simp)]; simp
+example : mlRowCorrect .belong [1, 1, 0] [1, 0, 0] = 0 := by
+  rw [mlRowCorrect_belong _ _ (by simp)]; simp
+example : mlRowCorrect .overlap [1, 1, 0] [1, 0, 0] = 1 := by
+  rw [mlRowCorrect_overlap]; simp
+example : mlRowCorrect .exact [1, 0] [1, 0] = 1 := by
+  rw [mlRowCorrect_exact _ _ rfl]; simp
+example : mlRowCorrect .hamming [1, 0, 1] [1, 1, 1] = 2 := by
+  rw [mlRowCorrect_hamming]; simp
+example : multilabelUpdate .contain [[1, 1, 0], [0, 0, 1]] [[1, 0, 0], [1, 0, 0]] = (1, 2) := by
+  have h := multilabelUpdate_eq .contain [[1, 1, 0], [0, 0, 1]] [[1, 0, 0], [1, 0, 0]] (by decide)
+  have e1 : mlRowCorrect .contain [1, 1, 0] [1, 0, 0] = 1 := by
+    rw [mlRowCorrect_contain _ _ (by simp)]; simp
+  have e2 : mlRowCorrect .contain [0, 0, 1] [1, 0, 0] = 0 := by
+    rw [mlRowCorrect_contain _ _ (by simp)]; simp
+  simp [e1, e2] at h
+  exact Prod.ext h.1 h.2
+
+/-! ## binary precision / recall / F1 updates (positive class `1`, 0/1 targets) -/
+
+/-- `_binary_precision_update` returns `(tp, fp)` of the positive class. -/
+theorem binaryPrecisionUpdate_eq (thr : Q) (xs : List Q) (ys : List Nat)
+    (hlen : xs.length = ys.length) (h01 : ∀ y ∈ ys, y ≤ 1) :
+    binaryPrecisionUpdate thr xs (ys.map fun (y : Nat) => (y : Q))
+      = ((tp ((xs.map (binPred thr)).zip ys) 1 : Q), (fp ((xs.map (binPred thr)).zip ys) 1 : Q)) := by
+  unfold binaryPrecisionUpdate
+  simp only [binary_tp_mul thr xs ys h01, binary_predicted thr xs ys (by omega), predicted_eq,
+    Rat.natCast_add]
+  congr 1
+  grind
+
+/-- `_binary_recall_update` returns `(tp, #positive targets)`. -/
+theorem binaryRecallUpdate_eq (thr : Q) (xs : List Q) (ys : List Nat)
+    (hlen : xs.length = ys.length) (h01 : ∀ y ∈ ys, y ≤ 1) :
+    binaryRecallUpdate thr xs ys
+      = ((tp ((xs.map (binPred thr)).zip ys) 1 : Q), (support ((xs.map (binPred thr)).zip ys) 1 : Q)) := by
+  unfold binaryRecallUpdate
+  rw [binary_tp_land thr xs ys h01, binary_support thr xs ys (by omega) h01]
+
+/-- `_binary_f1_score_update` returns `(tp, #positive targets, #positive predictions)`. -/
+theorem binaryF1Update_eq (thr : Q) (xs : List Q) (ys : List Nat)
+    (hlen : xs.length = ys.length) (h01 : ∀ y ∈ ys, y ≤ 1) :
+    binaryF1Update thr xs (ys.map fun (y : Nat) => (y : Q))
+      = ((tp ((xs.map (binPred thr)).zip ys) 1 : Q),
+         (support ((xs.map (binPred thr)).zip ys) 1 : Q),
+         (predicted ((xs.map (binPred thr)).zip ys) 1 : Q)) := by
+  unfold binaryF1Update
+  rw [binary_tp_mul thr xs ys h01, binary_support thr xs ys (by omega) h01,
+    binary_predicted thr xs ys (by omega)]
+
+example : ([1/4, 1/2, 3/4] : List Q).length = ([0, 1, 0] : List Nat).length ∧
+    ∀ y ∈ ([0, 1, 0] : List Nat), y ≤ 1 := by decide
+
+/-! ## update ∘ compute on valid inputs: the four averages of each metric -/
+
+theorem precision_pipeline (preds labs : List Nat) (C : Nat) (hlen : preds.length = labs.length)
+    (hp : preds.all (· < C) = true) (hl : labs.all (· < C) = true) :
+    (precisionUpdate preds labs .none C).map (precisionCompute · .none)
+        = .ok ((List.range C).map fun c => XQ.val (precision (preds.zip labs) c)) ∧
+    (precisionUpdate preds labs .macro C).map (precisionCompute · .macro)
+        = .ok [meanX ((present (preds.zip labs) C).map (precision (preds.zip labs)))] ∧
+    (precisionUpdate preds labs .weighted C).map (precisionCompute · .weighted)
+        = .ok [.val ((present (preds.zip labs) C).map fun c => precision (preds.zip labs) c *
+            ((support (preds.zip labs) c : Q) / ((preds.zip labs).length : Q))).sum] ∧
+    (precisionUpdate preds labs .micro C).map (precisionCompute · .micro)
+        = .ok [.val (ratio0 (correct (preds.zip labs)) (preds.zip labs).length)] := by
+  have hl' : ∀ p ∈ preds.zip labs, p.2 < C := fun p hp' => by
+    have := List.all_eq_true.mp hl p.2 (List.of_mem_zip (a := p.1) (b := p.2) hp').2
+    simpa using this
+  refine ⟨?_, ?_, ?_, ?_⟩
+  · rw [precisionUpdate_eq _ _ _ _ hlen hp hl (by decide)]
+    exact congrArg Except.ok (precisionCompute_none_eq _ C)
+  · rw [precisionUpdate_eq _ _ _ _ hlen hp hl (by decide)]
+    exact congrArg Except.ok (precisionCompute_macro_eq _ C)
+  · rw [precisionUpdate_eq _ _ _ _ hlen hp hl (by decide)]
+    exact congrArg Except.ok (precisionCompute_weighted_eq _ C hl')
+  · rw [precisionUpdate_micro_eq]
+    exact congrArg Except.ok (precisionCompute_micro_eq _)
+
+theorem recall_pipeline (preds labs : List Nat) (C : Nat) (hlen : preds.length = labs.length)
+    (hp : preds.all (· < C) = true) (hl : labs.all (· < C) = true) :
+    (recallUpdate preds labs .none C).map (recallCompute · .none)
+        = .ok ((List.range C).map fun c => XQ.val (recall (preds.zip labs) c)) ∧
+    (recallUpdate preds labs .macro C).map (recallCompute · .macro)
+        = .ok [meanX ((present (preds.zip labs) C).map (recall (preds.zip labs)))] ∧
+    (recallUpdate preds labs .weighted C).map (recallCompute · .weighted)
+        = .ok [.val ((present (preds.zip labs) C).map fun c => recall (preds.zip labs) c *
+            ((support (preds.zip labs) c : Q) / ((preds.zip labs).length : Q))).sum] ∧
+    (recallUpdate preds labs .micro C).map (recallCompute · .micro)
+        = .ok [.val (ratio0 (correct (preds.zip labs)) (preds.zip labs).length)] := by
+  have hl' : ∀ p ∈ preds.zip labs, p.2 < C := fun p hp' => by
+    have := List.all_eq_true.mp hl p.2 (List.of_mem_zip (a := p.1) (b := p.2) hp').2
+    simpa using this
+  have hn : labs.length = (preds.zip labs).length := by simp; omega
+  refine ⟨?_, ?_, ?_, ?_⟩
+  · rw [recallUpdate_eq _ _ _ _ hlen hp hl (by decide)]
+    exact congrArg Except.ok (recallCompute_none_eq _ C)
+  · rw [recallUpdate_eq _ _ _ _ hlen hp hl (by decide)]
+    exact congrArg Except.ok (recallCompute_macro_eq _ C)
+  · rw [recallUpdate_eq _ _ _ _ hlen hp hl (by decide)]
+    exact congrArg Except.ok (recallCompute_weighted_eq _ C hl')
+  · rw [recallUpdate_micro_eq, hn]
+    exact congrArg Except.ok (recallCompute_micro_eq _)
+
+theorem f1_pipeline (preds labs : List Nat) (C : Nat) (hlen : preds.length = labs.length)
+    (hp : preds.all (· < C) = true) (hl : labs.all (· < C) = true) :
+    (recallUpdate preds labs .none C).map (f1Compute · .none)
+        = .ok ((List.range C).map fun c => XQ.val (f1 (preds.zip labs) c)) ∧
+    (recallUpdate preds labs .macro C).map (f1Compute · .macro)
+        = .ok [meanX ((present (preds.zip labs) C).map (f1 (preds.zip labs)))] ∧
+    (recallUpdate preds labs .weighted C).map (f1Compute · .weighted)
+        = .ok [.val ((present (preds.zip labs) C).map fun c => f1 (preds.zip labs) c *
+            ((support (preds.zip labs) c : Q) / ((preds.zip labs).length : Q))).sum] ∧
+    (recallUpdate preds labs .micro C).map (f1Compute · .micro)
+        = .ok [.val (ratio0 (2 * correct (preds.zip labs))
+            ((preds.zip labs).length + (preds.zip labs).length))] := by
+  have hl' : ∀ p ∈ preds.zip labs, p.2 < C := fun p hp' => by
+    have := List.all_eq_true.mp hl p.2 (List.of_mem_zip (a := p.1) (b := p.2) hp').2
+    simpa using this
+  have hn : labs.length = (preds.zip labs).length := by simp; omega
+  refine ⟨?_, ?_, ?_, ?_⟩
+  · rw [recallUpdate_eq _ _ _ _ hlen hp hl (by decide)]
+    exact congrArg Except.ok (f1Compute_none_eq _ C)
+  · rw [recallUpdate_eq _ _ _ _ hlen hp hl (by decide)]
+    exact congrArg Except.ok (f1Compute_macro_eq _ C)
+  · rw [recallUpdate_eq _ _ _ _ hlen hp hl (by decide)]
+    exact congrArg Except.ok (f1Compute_weighted_eq _ C hl')
+  · rw [recallUpdate_micro_eq, hn]
+    exact congrArg Except.ok (f1Compute_micro_eq _)
+
+example : (recallUpdate [0, 2, 1, 2] [0, 1, 1, 2] .none 3).map (f1Compute · .none)
+    = .ok [.val 1, .val (2/3), .val (2/3)] := by
+  rw [(f1_pipeline [0, 2, 1, 2] [0, 1, 1, 2] 3 (by decide) (by decide) (by decide)).1]
+  simp [f1, ratio0, tp, fp, fn, List.range, List.range.loop]; grind
 
 end TE.C04
